@@ -83,7 +83,8 @@ def run_items(run: Run, header: str, items: Sequence[Item], *, per_condition_tim
                             nxt.append(it)
                         continue
                     run.violation(oname, {"harness": it.name, "call": it.call, "describe": it.describe,
-                                          "args": list(r.args), "crosshair": r.message,
+                                          "args": list(r.args), "arg_names": [a.split(":")[0].strip() for a in it.params.split(",") if a.strip()],
+                                          "crosshair": r.message,
                                           "concrete_replay": r.replay_outcome,
                                           "how_to_replay": "the harness expression `call` is evaluated with "
                                                            "x<i> bound to args[i] on the real odata_query code"},
